@@ -67,7 +67,11 @@ WGate(w) == IF IsVec(Kind(w)) THEN "t.writev" ELSE "t.write"
 
 Pos(s, x) == CHOOSE i \in 1..Len(s) : s[i] = x
 
-ParkedPcs == {"w.blocked", "m.wait", "r.blocked", "v.wait"}
+ParkedPcs == {"w.blocked", "m.wait", "r.blocked", "v.wait", "msg.wait"}
+
+\* "M" = Channel.Write(message) with a []byte message: closed test, then the pipeline's head
+\* handler calls Write1; an error of Write1 becomes an exception and Write still returns nil
+EntryPc(k) == IF k = "M" THEN "m.enter" ELSE "w.enter"
 
 \* result of a write that lost against the channel context
 CloseRes == IF FixClosed THEN "closed"
@@ -77,7 +81,7 @@ CloseRes == IF FixClosed THEN "closed"
 \* the initial value of every variable (one source for Init and the trace Reset)
 I0 == [
     pc |-> [p \in Procs |->
-               IF p \in Writers THEN (IF Len(Prog[p]) > 0 THEN "w.enter" ELSE "done")
+               IF p \in Writers THEN (IF Len(Prog[p]) > 0 THEN EntryPc(Prog[p][1]) ELSE "done")
                ELSE IF p \in Closers THEN "c.cas"
                ELSE IF p = "V" THEN (IF Serve = "full" THEN "v.start" ELSE "done")
                ELSE IF p = "R" THEN (IF Serve = "full" THEN "none" ELSE "r.blocked")
@@ -135,14 +139,17 @@ Reset ==
 (* Helpers: a set of writers finishing their current op in one step.  fin is *)
 (* a function from a set of writers to results.                              *)
 
-NextWPc(w) == IF opi[w] < Len(Prog[w]) THEN "w.enter" ELSE "done"
+NextWPc(w) == IF opi[w] < Len(Prog[w]) THEN EntryPc(Prog[w][opi[w] + 1]) ELSE "done"
+
+\* what the caller of op w sees when the low-level write produced r
+Seen(w, r) == IF Kind(w) = "M" /\ pc[w] \notin {"m.enter", "msg.wait"} /\ r # "ok" THEN "mexc" ELSE r
 
 \* new pc function after: process p moves to np, writers in DOMAIN fin finish,
 \* extra is a function of additional pc overrides
 PcAfter(over) == [q \in Procs |-> IF q \in DOMAIN over THEN over[q] ELSE pc[q]]
 
 FinishAll(fin) ==
-    /\ wret' = [w \in Writers |-> IF w \in DOMAIN fin THEN Append(wret[w], fin[w]) ELSE wret[w]]
+    /\ wret' = [w \in Writers |-> IF w \in DOMAIN fin THEN Append(wret[w], Seen(w, fin[w])) ELSE wret[w]]
     /\ opi' = [w \in Writers |-> IF w \in DOMAIN fin THEN opi[w] + 1 ELSE opi[w]]
     /\ returned' = returned \cup {Cur(w) : w \in DOMAIN fin}
     /\ okset' = okset \cup {Cur(w) : w \in {x \in DOMAIN fin : fin[x] = "ok"}}
@@ -173,16 +180,35 @@ Unlock(w, overPc) ==
 -----------------------------------------------------------------------------
 (* Writers                                                                   *)
 
-WEnter(w) ==
-    /\ pc[w] = "w.enter"
+\* Channel.Write(message): closed test first; on a closed channel it waits for the channel
+\* context and returns the stored close error
+MEnter(w) ==
+    /\ pc[w] = "m.enter"
     /\ begun' = begun \cup {Cur(w)}
     /\ before' = [before EXCEPT ![Cur(w)] = returned]
     /\ lateBegun' = IF closeRet THEN lateBegun \cup {Cur(w)} ELSE lateBegun
     /\ UNCHANGED <<stack, queue, waitq, running, closed, closeErr, werr, ctxDone, tclosed,
                    tcloses, tlog, flushed, batch, nexts, polls, carg, inactives, actives,
+                   reads, readsLeft, rinflight, faults, cancelled, acc, accAtClose, closeRet, drainedOK,
+                   mutex, mwait>>
+    /\ IF closed = 0
+       THEN /\ NoFinish /\ pc' = PcAfter(One(w, "w.enter"))
+       ELSE IF ctxDone
+            THEN /\ FinishAll(One(w, CloseRes)) /\ pc' = PcAfter(One(w, NextWPc(w)))
+            ELSE /\ NoFinish /\ pc' = PcAfter(One(w, "msg.wait"))
+
+WEnter(w) ==
+    /\ pc[w] = "w.enter"
+    /\ IF Kind(w) = "M"
+       THEN UNCHANGED <<begun, before, lateBegun>>
+       ELSE /\ begun' = begun \cup {Cur(w)}
+            /\ before' = [before EXCEPT ![Cur(w)] = returned]
+            /\ lateBegun' = IF closeRet THEN lateBegun \cup {Cur(w)} ELSE lateBegun
+    /\ UNCHANGED <<stack, queue, waitq, running, closed, closeErr, werr, ctxDone, tclosed,
+                   tcloses, tlog, flushed, batch, nexts, polls, carg, inactives, actives,
                    reads, readsLeft, rinflight, faults, cancelled, acc, accAtClose, closeRet, drainedOK>>
     /\ IF \/ FixClosed /\ closed = 1
-          \/ ~FixClosed /\ Kind(w) \in {"W1", "Wv"} /\ closeErr \notin {"unset", "nil"}
+          \/ ~FixClosed /\ Kind(w) \in {"W1", "Wv", "M"} /\ closeErr \notin {"unset", "nil"}
        THEN /\ FinishAll(One(w, "closed"))
             /\ pc' = PcAfter(One(w, NextWPc(w)))
             /\ UNCHANGED <<mutex, mwait>>
@@ -490,7 +516,7 @@ TClose(p) ==
 CCancel(p) ==
     /\ pc[p] = "c.cancel"
     /\ ctxDone' = TRUE
-    /\ LET ws == Range(waitq)
+    /\ LET ws == Range(waitq) \cup {w \in Writers : pc[w] = "msg.wait"}
            fin == [w \in ws |-> CloseRes]
        IN /\ FinishAll(fin)
           /\ pc' = PcAfter(Merge(One(p, "c.inactive"), FinPcs(fin)))
@@ -580,7 +606,7 @@ TReadFail ==
 
 -----------------------------------------------------------------------------
 Step(p) ==
-    \/ (p \in Writers /\ (WEnter(p) \/ WSelect(p) \/ WCas(p) \/ TWrite(p) \/ TWFlush(p)))
+    \/ (p \in Writers /\ (MEnter(p) \/ WEnter(p) \/ WSelect(p) \/ WCas(p) \/ TWrite(p) \/ TWFlush(p)))
     \/ (p \notin Writers /\ (XStart(p) \/ SPoll(p) \/ TWritev(p) \/ SLen(p) \/ TSFlush(p)
                              \/ SRelease(p) \/ SRecheck(p) \/ SRecas(p) \/ SFail(p)
                              \/ CCas(p) \/ CPoll(p) \/ CSetErr(p) \/ TClose(p) \/ CCancel(p)
@@ -632,7 +658,7 @@ C02_Responsible ==
         \/ running = 1
         \/ \E p \in Procs : pc[p] \in {"s.recheck", "s.recas", "w.cas"}
 
-Quiesced == \A p \in Procs : pc[p] \in {"done", "none", "r.blocked", "v.wait"}
+Quiesced == \A p \in Procs : pc[p] \in {"done", "none", "r.blocked", "v.wait", "msg.wait"}
 
 C02_Quiescent ==
     (Quiesced /\ closed = 0 /\ NoFaultYet) =>
@@ -679,6 +705,8 @@ C05_ReadsSequential == rinflight <= 1
 AllWritersDone == \A w \in Writers : pc[w] = "done"
 Delivered == okset \subseteq FlushedSet
 C02_Live == (AllWritersDone /\ closed = 0) ~> (Delivered \/ closed = 1 \/ ~NoFaultYet)
+C18_WaitEnds == \A w \in Writers : (pc[w] = "w.blocked") ~> (pc[w] # "w.blocked")
+C05_ReadLoopEnds == (tclosed \/ closed = 1) ~> (pc["R"] \in {"done", "none"})
 C06_CloseTerminates == \A c \in Closers : (pc[c] = "c.poll") ~> (pc[c] = "done")
 
 =============================================================================
